@@ -185,7 +185,9 @@ Theorem local_path_wf : forall v6r fam n xs family net attrs nh,
   /\ existsb (fun a => a_code a =? AS_PATH) attrs = true.
 Proof.
   intros v6r fam n xs family net attrs nh Hrg Hn Hr H. unfold local_path in H.
+  destruct (_ || _); [discriminate|].
   destruct (net_from_api v6r n) as [net0|] eqn:En; [|discriminate].
+  destruct (negb _); [discriminate|].
   destruct (lp_loop v6r _ xs [] None) as [[acc nh0]|] eqn:El; [|discriminate].
   injection H as _ <- <- _.
   split; [eapply (ApiNlri.net_from_api_wf (fun _ => []) v6r); eassumption|].
